@@ -782,7 +782,15 @@ class Saver:
 
         finally:
             if not self.closed:
-                self.close(wait_for=pending)
+                try:
+                    self.close(wait_for=pending)
+                except Exception as e:
+                    # A failure while closing (last metadata flush, renaming the
+                    # temporary directory) must not get lost with this thread:
+                    # log it for the processor's final check
+                    if self.got_exception is None:
+                        self.got_exception = e
+                    raise
 
     @staticmethod
     def _drop_finished(pending):
